@@ -11,6 +11,7 @@ inductive Wire where
   | init                    -- placeholder: the next call dials
   | live (id : Nat)
   | broken (id : Nat)       -- w.Error() != nil
+  | dead                    -- installed by mux.Close: every call fails with ErrClosing
   deriving Repr, DecidableEq
 
 structure Mux where
@@ -28,6 +29,14 @@ def Mux.pick (m : Mux) : Mux × Wire :=
     `muxwires[slot].wire.CompareAndSwap(wire, m.init)` -/
 def Mux.afterCall (m : Mux) (used : Wire) (brokenNow : Bool) : Mux :=
   if brokenNow && m.slot = used then { m with slot := .init } else m
+
+/-- `mux.Close`: `wire.Swap(m.dead)` -/
+def Mux.close (m : Mux) : Mux := { m with slot := .dead }
+
+/-- a dial that was started while the slot held the placeholder completes with connection `id`:
+    `CompareAndSwap(m.init, w)`; when it fails the new connection is closed and the current wire is used -/
+def Mux.install (m : Mux) (id : Nat) : Mux × Wire :=
+  if m.slot = .init then ({ m with slot := .live id }, .live id) else (m, m.slot)
 
 /-- the connection `id` fails: the slot's wire now reports an error -/
 def Mux.fail (m : Mux) (id : Nat) : Mux :=
